@@ -42,6 +42,7 @@
 #include <xercesc/validators/common/GrammarResolver.hpp>
 #include <xercesc/util/OutOfMemoryException.hpp>
 #include <xercesc/util/XMLResourceIdentifier.hpp>
+#include <xercesc/util/XercesVerif.hpp>
 
 namespace XERCES_CPP_NAMESPACE {
 
@@ -688,6 +689,7 @@ void XMLScanner::commonInit()
     //  use the mutex to protect it.
     {
         XMLMutexLock lockInit(sScannerMutex);
+        XERCES_VERIF_ACCESS("XMLScanner.gScannerId", 0, sScannerMutex, 1);
 
         // And assign ourselves the next available scanner id
         fScannerId = ++gScannerId;
